@@ -1,12 +1,17 @@
 //! C07 — replay protection (transaction tracker).
 //!   area `c07`  : unit level, the real `TransactionTrackerSubstateV1::{partition_for_expiry_epoch, advance}`
-//!   area `c07e` : engine level, real executions on the `LedgerSimulator` (boot checks + commit-time tracker update)
+//!   area `ec07` : engine level, real executions on the `LedgerSimulator` (boot checks + commit-time tracker update)
 use harness::util::*;
 use radix_common::prelude::*;
 use radix_engine::blueprints::transaction_tracker::*;
+use radix_engine::blueprints::consensus_manager::*;
 use radix_engine::errors::RejectionReason;
+use radix_engine::system::system_db_reader::SystemDatabaseReader;
+use radix_engine::system::system_substates::*;
 use radix_engine::transaction::*;
+use radix_engine::vm::NoExtension;
 use radix_engine_interface::prelude::*;
+use radix_substate_store_impls::memory_db::InMemorySubstateDatabase;
 use radix_substate_store_interface::interface::*;
 use radix_transactions::prelude::*;
 use radix_transactions::validation::TransactionValidationConfig;
@@ -229,6 +234,391 @@ impl Runner for UnitR {
     }
 }
 
+// ---------------------------------------------------------------------------------------- engine
+
+pub struct Engine;
+
+type Sim = LedgerSimulator<NoExtension, InMemorySubstateDatabase>;
+
+fn new_sim() -> Sim {
+    LedgerSimulatorBuilder::new().without_kernel_trace().without_receipt_substate_check().build()
+}
+
+fn read_tracker(sim: &Sim) -> TransactionTrackerSubstateV1 {
+    sim.substate_db()
+        .get_substate::<FieldSubstate<TransactionTrackerSubstate>>(
+            TRANSACTION_TRACKER,
+            MAIN_BASE_PARTITION,
+            TransactionTrackerField::TransactionTracker,
+        )
+        .unwrap()
+        .into_payload()
+        .into_v1()
+}
+
+fn read_epoch(sim: &Sim) -> u64 {
+    let reader = SystemDatabaseReader::new(sim.substate_db());
+    reader
+        .read_typed_object_field::<ConsensusManagerStateFieldPayload>(
+            CONSENSUS_MANAGER.as_node_id(),
+            ModuleId::Main,
+            ConsensusManagerField::State.field_index(),
+        )
+        .unwrap()
+        .fully_update_and_into_latest_version()
+        .epoch
+        .number()
+}
+
+fn intent_hash_of(h: u64) -> Hash {
+    hash(format!("c07-intent-{}", h))
+}
+
+fn peek(sim: &Sim, p: u8, h: u64) -> &'static str {
+    let v = sim.substate_db().get_substate::<KeyValueEntrySubstate<TransactionStatus>>(
+        TRANSACTION_TRACKER,
+        PartitionNumber(p),
+        SubstateKey::Map(scrypto_encode(&intent_hash_of(h)).unwrap()),
+    );
+    match v.and_then(|s| s.into_value()) {
+        None => "none",
+        Some(st) => match st.into_v1() {
+            TransactionStatusV1::CommittedSuccess => "success",
+            TransactionStatusV1::CommittedFailure => "failure",
+            TransactionStatusV1::Cancelled => "cancelled",
+        },
+    }
+}
+
+/// generator-side mirror of what it has asked for so far (used only to aim at boundaries)
+struct GenState {
+    epoch: u64,
+    se: u64,
+    next_hash: u64,
+    /// (kind, hash, expiry)
+    used: Vec<(char, u64, u64)>,
+}
+
+impl Engine {
+    fn gen_case(&self, rng: &mut Rng, init: &(TransactionTrackerSubstateV1, u64), out: &mut dyn Write, tier_long: bool) {
+        let (t, ep) = init;
+        writeln!(out, "reset {} {} {} {} {} {}", t.start_epoch, t.start_partition, t.partition_range_start_inclusive, t.partition_range_end_inclusive, t.epochs_per_partition, ep).unwrap();
+        let epp = t.epochs_per_partition;
+        let nparts = (t.partition_range_end_inclusive - t.partition_range_start_inclusive) as u64 + 1;
+        let max_range = TransactionValidationConfig::latest().max_epoch_range;
+        let mut g = GenState { epoch: *ep, se: t.start_epoch, next_hash: 1, used: vec![] };
+        // histories: 0 = realistic single-step, 1 = jumps to partition boundaries, 2 = wild (lag, far expiries)
+        let style = rng.below(3);
+        let len = if tier_long { 40 + rng.below(120) } else { 8 + rng.below(30) };
+        // start somewhere interesting
+        if style != 0 || rng.chance(1, 2) {
+            let target = match rng.below(4) { 0 => g.se + epp - 1 - rng.below(3), 1 => g.se + epp - 1, 2 => g.se + rng.below(epp), _ => g.epoch };
+            if target > g.epoch { writeln!(out, "jump {}", target).unwrap(); g.epoch = target; }
+        }
+        let committed = |g: &mut GenState| { if g.epoch >= g.se + epp { g.se += epp; } };
+        for _ in 0..len {
+            match rng.below(20) {
+                0..=8 => {
+                    // a transaction
+                    let k = match rng.below(8) { 0 => 0, 1 => 2, 2 => 3, _ => 1 };
+                    let mut nulls: Vec<(char, u64, u64)> = vec![];
+                    for _ in 0..k {
+                        if !g.used.is_empty() && rng.chance(2, 5) {
+                            let (kd, h, e) = *rng.pick(&g.used);
+                            let kd = if rng.chance(1, 6) { if kd == 't' { 's' } else { 't' } } else { kd };
+                            nulls.push((kd, h, e));
+                        } else {
+                            let expiry = match rng.below(12) {
+                                0 => g.epoch + 1,
+                                1 => g.se + epp - 1,
+                                2 => g.se + epp,
+                                3 => g.se + epp + 1,
+                                4 => g.epoch + max_range,
+                                5 => g.se + 2 * epp - rng.below(2),
+                                6 if style == 2 => g.se + nparts * epp - rng.below(2),     // last covered / first uncovered
+                                7 if style == 2 => g.epoch + max_range + 1 + rng.below(12_000),
+                                8 if style == 2 => g.epoch.saturating_sub(rng.below(3)),       // already expired
+                                _ => g.epoch + 1 + rng.below(max_range.min(400)),
+                            };
+                            let kd = if rng.chance(1, 4) { 's' } else { 't' };
+                            let h = g.next_hash;
+                            g.next_hash += 1;
+                            nulls.push((kd, h, expiry));
+                        }
+                    }
+                    let succ = !rng.chance(1, 3);
+                    let min_exp = nulls.iter().map(|n| n.2).min().unwrap_or(g.epoch + 10);
+                    let (s, e): (String, String) = match rng.below(12) {
+                        0 if style == 2 => ("-".into(), "-".into()),
+                        1 => ((g.epoch + 1).to_string(), (g.epoch + 5).max(min_exp).to_string()),   // not yet valid
+                        2 => (g.epoch.saturating_sub(3).to_string(), g.epoch.to_string()),              // just expired
+                        3 => (g.epoch.to_string(), (g.epoch + 1).to_string()),
+                        _ => (g.epoch.saturating_sub(rng.below(4)).to_string(), min_exp.to_string()),
+                    };
+                    let mut l = format!("tx {} {} {} {}", succ as u8, s, e, nulls.len());
+                    for (kd, h, ex) in &nulls {
+                        l += &format!(" {} {} {}", kd, h, ex);
+                        if !g.used.contains(&(*kd, *h, *ex)) { g.used.push((*kd, *h, *ex)); }
+                    }
+                    writeln!(out, "{}", l).unwrap();
+                    committed(&mut g); // (if it was rejected nothing moved; the mirror is only a heuristic)
+                }
+                9..=12 => {
+                    writeln!(out, "round").unwrap();
+                    g.epoch += 1;
+                    committed(&mut g);
+                }
+                13..=14 => {
+                    let e2 = match (style, rng.below(4)) { (0, _) => g.epoch + rng.below(2), (_, 0) => g.epoch, (_, 1) => g.epoch + 1, (1, _) => g.epoch + rng.below(3), (_, _) => g.epoch + rng.below(260) };
+                    writeln!(out, "sys {}", e2).unwrap();
+                    g.epoch = e2;
+                    committed(&mut g);
+                }
+                15..=16 if style != 0 => {
+                    let e2 = match rng.below(6) {
+                        0 => g.se + epp - 1,
+                        1 => g.se + epp,
+                        2 => g.se + 2 * epp - 1,
+                        3 if style == 2 => g.epoch + 5_000 + rng.below(8_000),
+                        4 if style == 2 => g.epoch.saturating_sub(rng.below(3)),   // backwards (test-only)
+                        _ => g.epoch + rng.below(epp),
+                    };
+                    writeln!(out, "jump {}", e2).unwrap();
+                    g.epoch = e2;
+                }
+                _ => {
+                    if let Some((_, h, ex)) = g.used.last().copied().or(None) {
+                        let (_, h2, ex2) = if rng.chance(1, 2) { (0, h, ex) } else { let u = *rng.pick(&g.used); (0, u.1, u.2) };
+                        // aim at the partition the expiry should live in (heuristic mirror), sometimes a neighbour
+                        let slot = if ex2 >= g.se { (ex2 - g.se) / epp } else { 0 };
+                        let base = t.partition_range_start_inclusive as u64;
+                        let sp_now = base + ((t.start_partition as u64 - base) + (g.se - t.start_epoch) / epp) % nparts;
+                        let mut p = base + ((sp_now - base) + slot) % nparts;
+                        if rng.chance(1, 5) { p = base + ((p - base) + 1) % nparts; }
+                        writeln!(out, "peek {} {}", p, h2).unwrap();
+                    } else {
+                        writeln!(out, "peek {} 1", t.start_partition).unwrap();
+                    }
+                }
+            }
+        }
+    }
+}
+
+impl Area for Engine {
+    fn gen(&self, rng: &mut Rng, n: usize, out: &mut dyn Write) {
+        let sim = new_sim();
+        let init = (read_tracker(&sim), read_epoch(&sim));
+        let long = std::env::var("VERIF_TIER").map(|t| t == "thorough").unwrap_or(false);
+        for i in 0..n {
+            self.gen_case(rng, &init, out, long && i % 4 == 0);
+        }
+        let t = &init.0;
+        for l in ["tx 1 5 6 1 t 1", "tx 2 - - 0", "tx 1 - 5 0", "sys", "jump x", "peek 300 1", "tx 1 1 2 1 q 1 2", "round 1"] {
+            writeln!(out, "reset {} {} {} {} {} {}", t.start_epoch, t.start_partition, t.partition_range_start_inclusive, t.partition_range_end_inclusive, t.epochs_per_partition, init.1).unwrap();
+            writeln!(out, "{}", l).unwrap();
+        }
+    }
+    fn runner(&self) -> Box<dyn Runner> {
+        let sim = new_sim();
+        let snap = sim.create_snapshot();
+        Box::new(EngineR { sim, snap, committed: BTreeMap::new(), clean: true, counter: 0 })
+    }
+    fn consts(&self) -> Vec<(String, String)> {
+        let sim = new_sim();
+        let t = read_tracker(&sim);
+        let mut v = consts();
+        v.push(("GENESIS_START_EPOCH".into(), t.start_epoch.to_string()));
+        v.push(("GENESIS_START_PARTITION".into(), (t.start_partition as u64).to_string()));
+        v.push(("GENESIS_RANGE_START".into(), (t.partition_range_start_inclusive as u64).to_string()));
+        v.push(("GENESIS_RANGE_END".into(), (t.partition_range_end_inclusive as u64).to_string()));
+        v.push(("GENESIS_EPOCHS_PER_PARTITION".into(), t.epochs_per_partition.to_string()));
+        v.push(("GENESIS_EPOCH".into(), read_epoch(&sim).to_string()));
+        v
+    }
+}
+
+struct EngineR {
+    sim: Sim,
+    snap: LedgerSimulatorSnapshot,
+    /// oracle ghost: intents the implementation has committed in this case: hash -> expiry
+    committed: BTreeMap<u64, u64>,
+    /// oracle ghost: so far the history is single-step and every expiry was within max_epoch_range
+    clean: bool,
+    counter: u64,
+}
+
+impl EngineR {
+    fn commit_answer(&self) -> String {
+        let t = read_tracker(&self.sim);
+        format!("commit {} {}", t.start_epoch, t.start_partition)
+    }
+}
+
+impl Runner for EngineR {
+    fn step(&mut self, line: &str) -> Answer {
+        let t: Vec<&str> = line.split(' ').filter(|s| !s.is_empty()).collect();
+        let bad = || Answer::ok("bad-op");
+        match t.as_slice() {
+            ["reset", se, sp, rs, re, epp, ep] => {
+                if [se, sp, rs, re, epp, ep].iter().any(|x| x.parse::<u64>().is_err()) { return bad() }
+                self.sim.restore_snapshot(self.snap.clone());
+                self.committed.clear();
+                self.clean = true;
+                let tr = read_tracker(&self.sim);
+                Answer::ok(format!("state {} {} {} {} {} {}", tr.start_epoch, tr.start_partition, tr.partition_range_start_inclusive, tr.partition_range_end_inclusive, tr.epochs_per_partition, read_epoch(&self.sim)))
+            }
+            ["tx", succ, s, e, k, rest @ ..] => {
+                let succ = match *succ { "1" => true, "0" => false, _ => return bad() };
+                let range = if *s == "-" && *e == "-" { None } else {
+                    match (s.parse::<u64>(), e.parse::<u64>()) { (Ok(s), Ok(e)) => Some((s, e)), _ => return bad() }
+                };
+                let Ok(k) = k.parse::<usize>() else { return bad() };
+                if rest.len() != 3 * k { return bad() }
+                let mut nulls = vec![];
+                for c in rest.chunks(3) {
+                    let kd = match c[0] { "t" => 't', "s" => 's', _ => return bad() };
+                    let (Ok(h), Ok(ex)) = (c[1].parse::<u64>(), c[2].parse::<u64>()) else { return bad() };
+                    nulls.push((kd, h, ex));
+                }
+                let cur = read_epoch(&self.sim);
+                let max_range = TransactionValidationConfig::latest().max_epoch_range;
+                if range.is_none() || nulls.iter().any(|n| n.2 > cur.saturating_add(max_range)) || range.map(|r| nulls.iter().any(|n| n.2 < r.1)).unwrap_or(false) {
+                    // not something static validation would have let through
+                    self.clean = false;
+                }
+                let mut b = ManifestBuilder::new().lock_fee_from_faucet();
+                if !succ { b = b.assert_worktop_contains(XRD, dec!(1)); }
+                let manifest = b.build();
+                self.counter += 1;
+                let ctx = ExecutionContext {
+                    unique_hash: hash(format!("c07-unique-{}", self.counter)),
+                    pre_allocated_addresses: vec![],
+                    payload_size: 200,
+                    num_of_signature_validations: 0,
+                    costing_parameters: TransactionCostingParameters::default(),
+                    epoch_range: range.map(|(s, e)| EpochRange { start_epoch_inclusive: Epoch::of(s), end_epoch_exclusive: Epoch::of(e) }),
+                    proposer_timestamp_range: None,
+                    disable_limits_and_costing_modules: false,
+                    intent_hash_nullifications: nulls.iter().map(|(kd, h, ex)| if *kd == 't' {
+                        IntentHashNullification::TransactionIntent { intent_hash: TransactionIntentHash::from_hash(intent_hash_of(*h)), expiry_epoch: Epoch::of(*ex) }
+                    } else {
+                        IntentHashNullification::Subintent { intent_hash: SubintentHash::from_hash(intent_hash_of(*h)), expiry_epoch: Epoch::of(*ex) }
+                    }).collect(),
+                };
+                let executable = ExecutableTransaction::new_v1(
+                    manifest_encode(&manifest.instructions).unwrap(),
+                    AuthZoneInit::default(),
+                    indexset!(Reference(FAUCET.into_node_id()), Reference(XRD.into_node_id())),
+                    indexmap!(),
+                    ctx,
+                );
+                let sim = &mut self.sim;
+                let r = catch(move || sim.execute_transaction(executable, ExecutionConfig::for_notarized_transaction(NetworkDefinition::simulator())));
+                let already: Vec<u64> = nulls.iter().filter(|n| self.committed.get(&n.1) == Some(&n.2)).map(|n| n.1).collect();
+                match r {
+                    Err(m) => {
+                        if self.clean {
+                            return Answer::fail("panic", "engine-panic-admissible", format!("the engine panicked on a transaction admitted by validation in a single-step history: {}", m));
+                        }
+                        Answer::ok("panic")
+                    }
+                    Ok(receipt) => match &receipt.result {
+                        TransactionResult::Reject(rej) => {
+                            let name_of = |ih: &IntentHash| -> String {
+                                let hh = *ih.as_hash();
+                                nulls.iter().find(|n| intent_hash_of(n.1) == hh).map(|n| n.1.to_string()).unwrap_or("?".into())
+                            };
+                            let ans = match &rej.reason {
+                                RejectionReason::TransactionEpochNotYetValid { valid_from, current_epoch } => format!("reject NotYetValid {} {}", valid_from.number(), current_epoch.number()),
+                                RejectionReason::TransactionEpochNoLongerValid { valid_until, current_epoch } => format!("reject NoLongerValid {} {}", valid_until.number(), current_epoch.number()),
+                                RejectionReason::IntentHashPreviouslyCommitted(ih) => format!("reject PrevCommitted {}", name_of(ih)),
+                                RejectionReason::IntentHashPreviouslyCancelled(ih) => format!("reject PrevCancelled {}", name_of(ih)),
+                                other => format!("reject other {:?}", other).replace(['\n', '\t'], " "),
+                            };
+                            if let Some((s, e)) = range {
+                                if cur >= s && cur < e && !ans.starts_with("reject Prev") {
+                                    return Answer::fail(ans, "epoch-window-reject-inside", "rejected for the epoch window although the current epoch is inside it");
+                                }
+                            }
+                            Answer::ok(ans)
+                        }
+                        TransactionResult::Commit(c) => {
+                            let ok = matches!(c.outcome, TransactionOutcome::Success(_));
+                            let ans = self.commit_answer();
+                            if ok != succ {
+                                return Answer::fail(format!("{} outcome={}", ans, ok), "harness-outcome", "the harness transaction did not end with the requested outcome");
+                            }
+                            if let Some((s, e)) = range {
+                                if cur < s || cur >= e {
+                                    return Answer::fail(ans, "epoch-window-commit-outside", format!("committed at epoch {} outside its validity window [{}, {})", cur, s, e));
+                                }
+                                // the property: an intent committed before is never committed again inside its window
+                                if let Some(h) = already.iter().find(|h| self.committed[*h] >= e) {
+                                    return Answer::fail(ans, "double-commit", format!("intent {} (expiry {}) committed a second time at epoch {}", h, self.committed[h], cur));
+                                }
+                            }
+                            for (kd, h, ex) in &nulls {
+                                if *kd == 't' || ok { self.committed.insert(*h, *ex); }
+                            }
+                            Answer::ok(ans)
+                        }
+                        TransactionResult::Abort(_) => Answer::ok("abort"),
+                    },
+                }
+            }
+            ["sys", e] => {
+                let Ok(e) = e.parse::<u64>() else { return bad() };
+                let cur = read_epoch(&self.sim);
+                if !(e == cur || e == cur + 1) { self.clean = false; }
+                self.sim.set_current_epoch(Epoch::of(e));
+                let sim = &mut self.sim;
+                match catch(move || sim.get_current_epoch()) {
+                    Ok(_) => Answer::ok(self.commit_answer()),
+                    Err(m) => {
+                        if self.clean { return Answer::fail("panic", "engine-panic-admissible", format!("system transaction panicked in a single-step history: {}", m)); }
+                        Answer::ok("panic")
+                    }
+                }
+            }
+            ["round"] => {
+                // a real consensus round change; with the test genesis every round ends the epoch
+                let cur = read_epoch(&self.sim);
+                let sim = &mut self.sim;
+                match catch(move || sim.advance_to_round(Round::of(1))) {
+                    Ok(rc) => {
+                        let now = read_epoch(&self.sim);
+                        let ans = self.commit_answer();
+                        if !rc.is_commit_success() || now != cur + 1 {
+                            return Answer::fail(ans, "harness-round", format!("round change did not move the epoch by one ({} -> {})", cur, now));
+                        }
+                        Answer::ok(ans)
+                    }
+                    Err(m) => {
+                        if self.clean { return Answer::fail("panic", "engine-panic-admissible", format!("round change panicked in a single-step history: {}", m)); }
+                        Answer::ok("panic")
+                    }
+                }
+            }
+            ["jump", e] => {
+                let Ok(e) = e.parse::<u64>() else { return bad() };
+                self.clean = false;
+                if e < read_epoch(&self.sim) {
+                    // epochs moving backwards void the property's premise: forget the ghost
+                    self.committed.clear();
+                }
+                self.sim.set_current_epoch(Epoch::of(e));
+                Answer::ok("ok")
+            }
+            ["peek", p, h] => {
+                let (Ok(p), Ok(h)) = (p.parse::<u8>(), h.parse::<u64>()) else { return bad() };
+                Answer::ok(peek(&self.sim, p, h))
+            }
+            _ => bad(),
+        }
+    }
+}
+
 fn main() {
-    main_with(&[("c07", &Unit)]);
+    main_with(&[("c07", &Unit), ("ec07", &Engine)]);
 }
